@@ -173,33 +173,54 @@ func runC09(c *Ctx) {
 		if cl == nil {
 			fatalf("anchor=%s.Close not found", tn)
 		}
+		// every path on which 'bytes are missing' is known (remainingBytes > 0 / buffer.Len() > 0)
+		// passes the report
 		reported := 0
-		for _, call := range Calls(cl) {
-			isRep := false
-			for _, cal := range p.CalleesAt(call) {
-				if cal == rwReport {
-					isRep = true
+		unreported := 0
+		cpaths, okP := EnumPaths(cl.Blocks[0], nil, IsReturn, 0)
+		if !okP {
+			c.Unknown("C09.2", FuncName(cl), "paths", cl.Pos(), "too many paths")
+		}
+		for _, cp := range cpaths {
+			missing := false
+			for cond, truth := range cp.Truth {
+				b, isB := cond.(*ssa.BinOp)
+				if !isB || b.Op != token.GTR || !truth {
+					continue
+				}
+				if k, isK := ConstInt(b.Y); !isK || k != 0 {
+					continue
+				}
+				if fl := LoadedField(b.X); fl != nil && strings.Contains(strings.ToLower(N(fl)), "remaining") {
+					missing = true
+				}
+				if bufferOfLen(b.X) != nil {
+					missing = true
 				}
 			}
-			if !isRep {
+			if !missing {
 				continue
 			}
-			// dominated by a 'bytes missing' fact: remainingBytes > 0  /  buffer.Len() > 0
-			for _, f := range FactsAt(call.Block()) {
-				cmp, ok := f.AsCmp()
-				if !ok || cmp.Op != token.GTR {
-					continue
-				}
-				if k, isK := ConstInt(cmp.Y); !isK || k != 0 {
-					continue
-				}
-				if fl := LoadedField(cmp.X); fl != nil && strings.Contains(strings.ToLower(N(fl)), "remaining") {
-					reported++
-				}
-				if b := bufferOfLen(cmp.X); b != nil {
-					reported++
+			rep := false
+			for _, blk := range cp.Blocks {
+				for _, in := range blk.Instrs {
+					if ci, isC := in.(ssa.CallInstruction); isC {
+						for _, cal := range p.CalleesAt(ci) {
+							if cal == rwReport {
+								rep = true
+							}
+						}
+					}
 				}
 			}
+			if rep {
+				reported++
+			} else if tn == "transformingWriter" {
+				unreported++
+			}
+		}
+		if unreported > 0 {
+			reported = 0
 		}
 		c.Check(reported > 0, "C09.2", FuncName(cl), "unfinished-unit-reported", cl.Pos(),
 			"Close reports an error to the client when bytes of an envelope/message are still missing", "Close no longer reports an unfinished envelope/message: a backend that stops mid-message yields a silently short body")
@@ -250,6 +271,66 @@ func runC09(c *Ctx) {
 		c.Check(ok && bad == 0, "C09.2", FuncName(cl), "only-excuse-is-next-envelope", cl.Pos(),
 			"a Close with bytes still missing skips the error report only when it was waiting for the next envelope and none of it was written (writingEnvelope && remainingBytes == envelopeLen)",
 			itoa(bad)+" path(s) through Close have bytes missing, report nothing, and are not the 'waiting for the next envelope' state: a response cut inside a message is taken for a clean end")
+	}
+
+	// the same for the re-encoding writer: in enveloped mode, a Close that reports nothing must
+	// know that it is waiting for the next envelope (nothing of it buffered) or that no bytes of
+	// the announced message are outstanding (defect D17: 'envelope complete, payload never
+	// started' was taken for a clean end)
+	{
+		twT := types.NewPointer(p.MustNamed("transformingWriter"))
+		cl := p.MethodOf(twT, "Close")
+		expF := p.MustField("transformingWriter", "expectingBytes")
+		weF := p.MustField("transformingWriter", "writingEnvelope")
+		bufF := p.MustField("transformingWriter", "buffer")
+		paths, ok := EnumPaths(cl.Blocks[0], nil, IsReturn, 0)
+		bad, judged := 0, 0
+		for _, cp := range paths {
+			unenveloped, bufNil, reported, excuse := false, false, false, false
+			for cond, truth := range cp.Truth {
+				if truth && LoadedField(cond) == weF {
+					excuse = true // waiting for the next envelope
+				}
+				b, isB := cond.(*ssa.BinOp)
+				if !isB {
+					continue
+				}
+				if LoadedField(b.X) == expF {
+					if k, isK := ConstInt(b.Y); isK {
+						if k == -1 && (b.Op == token.EQL && truth || b.Op == token.NEQ && !truth) {
+							unenveloped = true
+						}
+						if k == 0 && (b.Op == token.GTR && !truth || b.Op == token.LEQ && truth || b.Op == token.EQL && truth) {
+							excuse = true // no announced bytes outstanding
+						}
+					}
+				}
+				if LoadedField(b.X) == bufF && IsNilConst(b.Y) && (b.Op == token.NEQ && !truth || b.Op == token.EQL && truth) {
+					bufNil = true
+				}
+			}
+			for _, blk := range cp.Blocks {
+				for _, in := range blk.Instrs {
+					if ci, isC := in.(ssa.CallInstruction); isC {
+						for _, cal := range p.CalleesAt(ci) {
+							if cal == rwReport {
+								reported = true
+							}
+						}
+					}
+				}
+			}
+			if unenveloped || bufNil {
+				continue
+			}
+			judged++
+			if !reported && !excuse {
+				bad++
+			}
+		}
+		c.Check(ok && bad == 0 && judged > 0, "C09.2", FuncName(cl), "only-excuse-is-next-envelope", cl.Pos(),
+			"in enveloped mode a Close that reports nothing knows it was waiting for the next envelope, or that no announced bytes are outstanding ("+itoa(judged)+" paths)",
+			itoa(bad)+" path(s) through Close report nothing without knowing that the writer was between messages: a response that ends right after a message's envelope (payload never started) is taken for a clean end")
 	}
 
 	// ---------------------------------------------------------------- C09.3
